@@ -138,6 +138,9 @@ except Exception as e:
 # ----------------------------------------------------------------------------- cases
 
 SIZES = [1, 16, 100, 1024, 4096, 20000, 65536, 262144, 1048576]
+# requests nobody can satisfy: the only correct outcome is FIBER_ERROR with nothing left allocated
+# (not for split stacks: libgcc's __splitstack_makecontext aborts the process by itself there)
+ABSURD = [(1 << 64) - 1, (1 << 64) - 17, (1 << 64) - 4000, (1 << 64) - 4097, 1 << 63, (1 << 63) - 1, 1 << 48, (1 << 56) + 12345]
 
 
 def make_gen(strategy, backend, quick, thorough):
@@ -147,6 +150,10 @@ def make_gen(strategy, backend, quick, thorough):
         for i in range(n):
             if i < len(SIZES):
                 size = SIZES[i]          # every listed size at least once, tiny ones first
+            elif strategy != "split" and i < len(SIZES) + len(ABSURD):
+                size = ABSURD[i - len(SIZES)]
+            elif strategy != "split" and rng.random() < 0.04:
+                size = rng.choice(ABSURD + [(1 << 64) - rng.randrange(1, 1 << 14)])
             else:
                 size = rng.choice(SIZES + [rng.randrange(1, 300), rng.randrange(300, 70000), rng.randrange(1, 1 << 21)])
             k = rng.choice([1, 1, 2, 3, 5, 8, 16, 30])
